@@ -2,7 +2,7 @@
 
 Space  : all 756 parameter lists with <= 2 parameters per kind (positional-only, positional-or-
          keyword, *args or bare *, keyword-only, **kwargs) and every legal default pattern
-         x {def, def with annotations, user lambda, def whose parameters are all captured by inner scopes} x definition placement {module, function, class}
+         x {def, def with annotations, user lambda, def whose parameters are all captured by inner scopes, def whose defaults read a name of the defining scope} x definition placement {module, function, class}
          x 8 option combinations.
 Env(E2): the call battery - for each signature every call shape with 0..n+1 positionals x every
          subset (<= 2) of keywords drawn from all parameter names plus one unknown name - is the
@@ -68,17 +68,22 @@ def render(s, variant, placement):
     tup = "(%s%s)" % (", ".join(names), "," if len(names) == 1 else "")
     if variant == "lambda":
         body = "f = lambda %s: %s" % (plist, tup if names else "()")
-    elif variant == "defclosure":
+    elif variant == "defscope":
+        # default expressions read a name of the DEFINING scope that also exists as a global and (in a function) is shared with a
+        # sibling closure, so resolving it in the wrong namespace gives another value
+        t = tup if names else "()"
+        body = "def f(%s):\n    return %s" % (plist.replace("dflt(", "dflt(scoped, "), t)
         # every parameter is captured by an inner function and by an inner lambda
         t = tup if names else "()"
         body = "def f(%s):\n    def inner():\n        return %s\n    g = lambda: %s\n    if probe_branch():\n        return inner()\n    return g()" % (plist, t, t)
     else:
         body = "@deco(1)\n@deco(2)\ndef f(%s)%s:\n    if probe_branch():\n        return %s\n    mark()" % (plist, " -> 'R'" if ann else "", tup if names else "()")
     if placement == "module":
-        return body + "\n"
+        return "scoped = 'module'\n" + body + "\n"
     if placement == "function":
-        return "def F():\n    local = 1\n" + _ind(body) + "\n    return f\nf = F()\n"
-    return "class K:\n    member = 1\n" + _ind(body) + "\nf = K.__dict__['f']\n"
+        return ("scoped = 'global'\ndef F(scoped='param'):\n    local = 1\n    def bump():\n        nonlocal scoped\n        scoped = scoped + '+bumped'\n    bump()\n"
+                + _ind(body) + "\n    return f\nf = F()\n")
+    return "scoped = 'global'\nclass K:\n    member = 1\n    scoped = 'member'\n" + _ind(body) + "\nf = K.__dict__['f']\n"
 
 
 def _ind(s):
@@ -102,9 +107,10 @@ class Env:
     def ns(self):
         e = self
 
-        def dflt(i):
-            e.log.append(("default", i))
-            return i
+        def dflt(*a):
+            # dflt(i) or dflt(value of the name `scoped` in the defining scope, i)
+            e.log.append(("default",) + a)
+            return a[-1]
 
         def deco(i):
             e.log.append(("deco-eval", i))
@@ -225,10 +231,12 @@ def run_shard(shard):
 def main(tier, seed, collect=None):
     t0 = time.time()
     k = 96
-    variants = ["def", "defann", "lambda", "defclosure"]
+    variants = ["def", "defann", "lambda", "defclosure", "defscope"]
     placements = ["module", "function", "class"]
     cfgs = core.ALL_CFG
     total = core.run_shards(run_shard, [(r, k, cfgs, variants, placements) for r in range(k)], seed=seed, pid=PID)
+    other_hosts = core.run_on_hosts(PID, ["py310", "py311", "py313"], "quick", seed, total) if tier == "thorough" else []
+
     c = total.c
     cov = {
         "states": c["signatures"] + c["calls"],
